@@ -32,7 +32,8 @@ def check_entries(M, obs, ctx):
     for st in obs.steps:
         if "recorded" not in st:
             continue
-        k, R, working = st["t"], st["recorded"], st["working"]
+        k, R = st["t"], st["recorded"]
+        working = not any(True for a in M.run["abs"] if a == k)  # from the model's absence list, not from the implementation's flag
         ctx.cover("entry-checked")
         if not working:
             ctx.cover("absence-display")
